@@ -23,6 +23,28 @@ except Exception:
     pass
 import warnings; warnings.simplefilter('ignore')
 from geophires_monte_carlo import MC_GeoPHIRES3
+_slow = os.environ.get('GXV_MC_SLOW_WRITES')
+if _slow:
+    # injected schedule fault (harness-side, inherited by the forked workers): the row append is made non-atomic - written in
+    # k pieces, flushed after each, with a pause in between - as on a slow or network file system.  Only the writer's own
+    # mutual exclusion can then keep rows whole.
+    import time
+    _k, _ms = (int(x) for x in _slow.split(','))
+    class _SlowFile:
+        def __init__(self, f): self._f = f
+        def write(self, t):
+            n = max(1, -(-len(t) // _k))
+            for i in range(0, len(t), n):
+                self._f.write(t[i:i + n]); self._f.flush()
+                time.sleep(_ms * (1 + (os.getpid() + i) %% 3) / 1000.0)
+            return len(t)
+        def __getattr__(self, a): return getattr(self._f, a)
+    _Base = MC_GeoPHIRES3.Locker
+    class _SlowLocker(_Base):
+        def __enter__(self):
+            acquired, code, fd = _Base.__enter__(self)
+            return acquired, code, (_SlowFile(fd) if fd is not None else None)
+    MC_GeoPHIRES3.Locker = _SlowLocker
 res = {'ok': True}
 try:
     MC_GeoPHIRES3.main(command_line_args=sys.argv[2:])
@@ -123,6 +145,9 @@ def run_mc(s, workdir, timeout=900):
     code = os.path.join(SRC_DIR, 'hip_ra_x', 'hip_ra_x.py') if s['program'] == 'HIP' else os.path.join(SRC_DIR, 'geophires_x', 'GEOPHIRESv3.py')
     env = dict(os.environ, TMPDIR=workdir, MPLBACKEND='Agg', PYTHONDONTWRITEBYTECODE='1', OMP_NUM_THREADS='1', OPENBLAS_NUM_THREADS='1')
     env.pop('PYTHONPATH', None)
+    env.pop('GXV_MC_SLOW_WRITES', None)
+    if s.get('slow_writes'):
+        env['GXV_MC_SLOW_WRITES'] = '%d,%d' % tuple(s['slow_writes'])
     pr = subprocess.run([sys.executable, '-c', RUNNER % {'src': SRC_DIR}, str(s['workers']), code, base, sett, out], cwd=workdir,
                         env=env, capture_output=True, text=True, timeout=timeout)
     res = {'ok': False, 'error': 'no result line (rc=%s) %s' % (pr.returncode, pr.stderr[-300:])}
